@@ -22,9 +22,10 @@ func init() {
 			"Added after blind round 4: Append routes to the single-record or the fragment writer by exactly the payload size writeRecord builds; the variable-length slices of parseEntryData are bounds-checked (shared with C10). " +
 			"Added after blind round 5: ReuseWAL reopens the last file of the sorted list only; the reader puts no constant bound on decoded key/value lengths. " +
 			"Added after blind round 6: the explicit-sequence rule of C08 (GetEntriesFrom's upper bound is the counter). " +
-			"Added after blind round 7: processFragments concatenates the fragment payloads (running offset starting at 0 and advancing by len(fragment), or append) — fragments are not all of one size.",
+			"Added after blind round 7: processFragments concatenates the fragment payloads (running offset starting at 0 and advancing by len(fragment), or append) — fragments are not all of one size. " +
+			"Added after blind round 8: getSequenceBounds compares every entry with both running bounds (a one-entry file has a maximum).",
 		NotDecided: "equality of replayed and appended sequences for all inputs (the layout agreement plus CRC is its structural part); behaviour with non-monotone sequence numbers.",
-		Rules:      []func(*Ctx, *Reporter){ruleWalHeaderCodec, ruleWalPayloadCodec, ruleWalFragmentation, ruleWalLengthFits, ruleWalCRC, ruleWalFileOrder, ruleWalNoBufferDrop, ruleWalRouteBySize, ruleNoFabrication, ruleReuseNewestOnly, ruleWalReaderNoConstantLimits, ruleExplicitSeqBelowCounter, ruleFragmentsConcatenated},
+		Rules:      []func(*Ctx, *Reporter){ruleWalHeaderCodec, ruleWalPayloadCodec, ruleWalFragmentation, ruleWalLengthFits, ruleWalCRC, ruleWalFileOrder, ruleWalNoBufferDrop, ruleWalRouteBySize, ruleNoFabrication, ruleReuseNewestOnly, ruleWalReaderNoConstantLimits, ruleExplicitSeqBelowCounter, ruleFragmentsConcatenated, ruleSequenceBoundsIndependent},
 	})
 }
 
